@@ -753,8 +753,17 @@ func (c *Compiler) ExpandModules() (err error) {
 func (c *Compiler) validateXpathWalk(n parse.Node) {
 	for _, ch := range n.Children() {
 		if ch.Type() == parse.NodeDeviation {
-			// A must named by 'deviate delete' only has to match the
-			// text of an existing one
+			// What a deviation adds, or puts in the place of something,
+			// is checked where it is written, like any other statement
+			// (also when the target is not built).  A must named by
+			// 'deviate delete' only has to match the text of an
+			// existing one.
+			for _, d := range ch.Children() {
+				switch d.Type() {
+				case parse.NodeDeviateAdd, parse.NodeDeviateReplace:
+					c.validateXpathWalk(d)
+				}
+			}
 			continue
 		}
 		stmt := ch
